@@ -367,6 +367,37 @@ def check_path(ctx):
             return None
         return tm.subst(v, rule)
 
+    def key_kind(public):
+        """The decoder's contract (decided as C09.5): the key field is an int for a private key and a point for a public one. A
+        derivation that asks `type(key) is int` instead of looking at the version bytes asks the same question."""
+        def fn(c):
+            c = rules.unfz(c)
+            if not (isinstance(c, T) and c.op == "cmp" and c.args[0] in ("is", "eq", "isnot", "ne")):
+                return None
+            a, b = rules.unfz(c.args[1]), rules.unfz(c.args[2])
+            if isinstance(b, T) and b.op == "typeof":
+                a, b = b, a
+            if not (isinstance(a, T) and a.op == "typeof" and isinstance(b, T) and b.op == "ext" and b.args[0] in ("builtins.int", "builtins.tuple")):
+                return None
+            x = rules.unfz(a.args[0])
+            if not (isinstance(x, T) and x.op == "proj" and x.args[1] == 5 and isinstance(x.args[0], T) and x.args[0].op == "app" and
+                    x.args[0].args[0] == B32 + "deserialized_extended_key"):
+                return None
+            src = rules.unfz(x.args[0].args[1][0])
+            if src == mk:
+                is_int = not public
+            elif isinstance(src, T) and src.op == "app" and src.args[0] == B32 + "serialized_extended_key":
+                k0 = rules.unfz(src.args[1][0])
+                root = rules.unfz(k0.args[0]) if isinstance(k0, T) and k0.op in ("idx", "proj") and k0.args[1] == 0 else None
+                if not (isinstance(root, T) and root.op == "app" and root.args[0] in (B32 + "CKDpriv", B32 + "CKDpub")):
+                    return None
+                is_int = root.args[0] == B32 + "CKDpriv"
+            else:
+                return None
+            r = is_int if b.args[0] == "builtins.int" else not is_int
+            return r if c.args[0] in ("is", "eq") else not r
+        return fn
+
     HH = 2 ** 31
     good = [("m", []), ("m/0", [0]), ("m/0'", [HH]), ("m/1/2'/3", [1, HH + 2, 3]), ("m/44'/0'/0'/0/5", [HH + 44, HH, HH, 0, 5]), ("m/2147483647", [HH - 1]), ("m/2147483647'", [2 * HH - 1]),
             ("M", []), ("M/0", [0]), ("M/7/8", [7, 8]), ("M/2147483647/1", [HH - 1, 1]), ("M/0'", [HH]), ("M/3/2147483648", [3, HH])]
@@ -376,11 +407,12 @@ def check_path(ctx):
     for path_s, steps in good:
         public = path_s.startswith("M")
         ev.assumptions = {pub_t: public, tm.lnot(pub_t): not public, prv_t: not public, tm.lnot(prv_t): public}
+        ev.assume_fn = key_kind(public)
         k, v = rules.decided_outcome(ev.run(fi, {"path": path_s, "master_extended_key": mk}, use_defaults=True))
         want = expected(steps, public)
         if not (k == "return" and (tm.veq(v, want) or tm.veq(carried(v), carried(want)))):
             badp.append((path_s, k, tm.first_diff(v, want)[:200] if k == "return" else tm.show(v)[:100]))
-    ev.assumptions = {}
+    ev.assumptions, ev.assume_fn = {}, None
     R.check("C09.6", "TERM-EQ", fi, "for %d concrete paths (m / M, hardened and normal steps, depth 0..5): each step = serialize(CKD(parent key, parent chain, i), depth+1, "
             "HASH160(serP(parent pub))[:4], ser32(i), network), chained from the given key" % len(good), not badp,
             "derive_from_path(%r) is %s %s" % (badp[0] if badp else ("", "", "")), example=("path %s" % badp[0][0]) if badp else None)
@@ -391,6 +423,7 @@ def check_path(ctx):
         for d0 in (0, 253, 254):
             ev.assumptions = {pub_t: public, tm.lnot(pub_t): not public, prv_t: not public, tm.lnot(prv_t): public}
             ev.bind = {T("proj", (des0, 1)): bytes([d0])}
+            ev.assume_fn = key_kind(public)
             sm_ = ev.run(fi, {"path": "M/7" if public else "m/7", "master_extended_key": mk}, use_defaults=True)
             k, v = None, None
             for ex in sm_.exits:  # strict, except for the opaque "a handler may run" flows of try blocks
@@ -404,7 +437,7 @@ def check_path(ctx):
             okd = k == "return" and isinstance(v, T) and v.op == "app" and v.args[0] == B32 + "serialized_extended_key" and len(v.args[1]) > 2 and v.args[1][2] == bytes([d0 + 1])
             if not okd:
                 deep.append("%s parent at depth %d: %s %s" % ("public" if public else "private", d0, k, tm.show(v)[:100]))
-    ev.assumptions, ev.bind = {}, {}
+    ev.assumptions, ev.bind, ev.assume_fn = {}, {}, None
     R.check("C09.6", "DECISION-TABLE", fi, "children at depth 1, 254 and 255 are derived (parent depth 0 / 253 / 254), with that depth byte", not deep,
             "derive_from_path at the depth boundary: %s" % (deep[0] if deep else ""), example="a key at depth 254 deriving its child at depth 255")
     # malformed paths and mismatched key kinds are refused
